@@ -34,6 +34,30 @@ CLAIMED['C02'] = dict(
     technique="symbolic execution of the real Python simplifier twice per path + z3 structural-equality query",
     design_ref="DESIGN.md §3 C02")
 
+CLAIMED['C26'] = dict(
+    level='other',
+    text="Bounded symbolic verification of miasm.core.interval: every interval bound is a solver variable (paths = order "
+         "types of the bounds), a symbolic member x ties union/intersection/difference/construction to set semantics; "
+         "canonical form, length, hull, ==, inclusion are proved per path. Up to 2 (quick) / 3 (thorough) intervals per operand.",
+    note="Trusted: z3, vf/symx.py. No stubs (interval.py runs unmodified on proxy ints).",
+    technique="symbolic execution of the real Python (proxy ints, symbolic interval bounds) + z3 per-path queries",
+    design_ref="DESIGN.md §3 C26")
+CLAIMED['C05'] = dict(
+    level='translation_validation',
+    text="For ~1300 (quick) / ~4000 (thorough) expression shapes over symbolic operands, the z3 term produced by the real "
+         "TranslatorZ3 is proved equal to the reference term for all identifier values and all memory-array contents, both "
+         "byte orders; models are replayed by evaluating the translated term and comparing with miasm's own evaluation.",
+    note="Trusted: z3, vf/refsem.py. Bounds: widths listed in evidence, sdiv/smod <= 8/16 bits, literal constants from a fixed set.",
+    technique="translation validation: SMT equivalence query translator(e) == refsem(e) per shape",
+    design_ref="DESIGN.md §3 C05", engine='refsem')
+CLAIMED['C06'] = dict(
+    level='translation_validation',
+    text="Same as C05 for TranslatorSMT2: the emitted SMT-LIB2 text (with the translator's own declarations) is parsed back by "
+         "z3 and proved equal to the reference term for all values; unparsable text or an exception is a violation.",
+    note="Trusted: z3 (parser and solver), vf/refsem.py. Widths 1..64 from the listed set.",
+    technique="translation validation: parse emitted SMT-LIB2, SMT equivalence query against refsem per shape",
+    design_ref="DESIGN.md §3 C06", engine='refsem')
+
 NOT_APPLICABLE = {
 }
 
